@@ -778,7 +778,8 @@ inline int run(int argc, char **argv)
           v.case_text = case_text();
           std::string fn = sl.page->fn[0] ? sl.page->fn : "?";
           s.page = save;
-          v.sig = "crash:" + fn + ":" + kind;
+          // a primitive the scheduler cannot model is a limitation of the harness, not a verdict
+          v.sig = (kind == "unsupported_sync_primitive" ? "harness:" : "crash:") + fn + ":" + kind;
           std::size_t cut = err.size() > 3000 ? 3000 : err.size();
           v.what = err.substr(0, cut);
           v.shard = sd.name;
